@@ -78,6 +78,14 @@ func Constructs() []Construct {
 		line("for-range", "{for $i in range(1, 5)}{$i}{/for}\n"),
 		line("let", "{let $v: 1 /}{let $w}x{/let}\n"),
 		line("msg", "{msg desc=\"d\" meaning=\"m\"}Hello <b>{$x}</b> and {$y}{/msg}\n"),
+		line("msg/text-lt-digit", "{msg desc=\"d\"}I <3 you -> always, 1<2>1 and a < b{/msg}\n"),
+		line("msg/text-tags", "{msg desc=\"d\"}<a href='>' phname=\"p\">x</a> <br/> <!-- c -->{/msg}\n"),
+		{"msg/one-message-lt-digit-run", "file", func(n int) string { return fileOf("{msg desc=\"d\"}" + rep("<3 ", n) + "{/msg}\n") }, 2000, 0},
+		{"msg/one-message-lt-digit-run-closed", "file", func(n int) string { return fileOf("{msg desc=\"d\"}" + rep("<3 ", n) + ">{/msg}\n") }, 2000, 0},
+		{"msg/one-message-lt-run", "file", func(n int) string { return fileOf("{msg desc=\"d\"}" + rep("<", n) + "{/msg}\n") }, 4000, 0},
+		{"msg/one-message-open-tags", "file", func(n int) string { return fileOf("{msg desc=\"d\"}" + rep("<a b=\"c ", n) + "{/msg}\n") }, 2000, 0},
+		{"msg/one-message-many-tags", "file", func(n int) string { return fileOf("{msg desc=\"d\"}" + rep("<b>x</b> ", n) + "{/msg}\n") }, 2000, 0},
+		{"msg/one-message-many-placeholders", "file", func(n int) string { return fileOf("{msg desc=\"d\"}" + rep("a {$x} ", n) + "{/msg}\n") }, 1000, 0},
 		line("msg/plural", "{msg desc=\"d\"}{plural $n}{case 1}one{default}{$n} many{/plural}{/msg}\n"),
 		line("literal", "{literal}a {b} c{/literal}\n"),
 		line("special-chars", "{sp}{nil}{lb}{rb}{\\n}\n"),
